@@ -81,6 +81,9 @@ def run_cell(rec, cell):
     sim = scen.make_sim(srv, server_kwargs=kw, ws_close_mode=conv,
                         policy='random' if sched else 'fifo', seed=sched,
                         yield_prob=0.3 if sched else 0.0)
+    # the spelling of the handshake headers (case-insensitive tokens) is
+    # varied deterministically over the cells
+    sim.upgrade_spelling = sum(cell) % 3
     R = hist.Runner(sim)
     desc = ('frames=(%r,%r) close=%s convention=%s concurrent=%s '
             'allow_upgrades=%r transports=%r server=%s' % (
